@@ -75,6 +75,9 @@ def r2(ctx):
     if len(cc) == 1:
         arr = core(sym(clo, cc[0].args[0]))
         good = match(arr, ('agg', 'array', '', (('field', ('field', ('arg', 2, ANY), 0), 1), ('field', ('field', ('arg', 2, ANY), 1), 1))))
+        if not good:
+            # `bytes.windows(2).enumerate()`: the window IS the (left, right) pair
+            good = match(arr, ('field', ('arg', 2, ANY), 1)) and has(core(ch), Call('slice::windows', ANY, Const(2)))
     ctx.require(good, clo, 'initial-concat', 'initial candidate bytes = concat(left bytes, right bytes)', None,
                 cc[0].span if cc else None)
     # collected token ids: flatten of token_ids appended once per word
